@@ -201,6 +201,16 @@ type PU struct {
 	*PB
 }
 
+// MU is a union of a member WITHOUT a key (PA) and a member WITH one (KB): a
+// switch between them changes whether the object carries __key.
+type MU struct {
+	schemabuilder.Union
+	*PA
+	*KB
+}
+
+type lqKey struct{ tag string }
+
 type oracleKey struct{}
 
 // OracleCtx marks an execution made by the harness itself (expected values):
@@ -431,6 +441,16 @@ func uvalKU(u UVal) *KU {
 	return nil
 }
 
+func uvalMU(u UVal) *MU {
+	switch u.Kind {
+	case "A":
+		return &MU{PA: &PA{A: u.A, Same: u.ID}}
+	case "B":
+		return &MU{KB: &KB{Id: u.ID, B: u.B}}
+	}
+	return nil
+}
+
 func uvalPU(u UVal) *PU {
 	switch u.Kind {
 	case "A":
@@ -530,6 +550,47 @@ func (w *World) buildSchema() *graphql.Schema {
 	})
 	v.FieldFunc("ku", func(ctx context.Context, v *View) *KU {
 		return uvalKU(w.read(ctx, v.tag, "ku").(UVal))
+	})
+	v.FieldFunc("mu", func(ctx context.Context, v *View) *MU {
+		return uvalMU(w.read(ctx, v.tag, "mu").(UVal))
+	})
+	v.FieldFunc("mulist", func(ctx context.Context, v *View) []*MU {
+		us := w.read(ctx, v.tag, "mulist").([]UVal)
+		out := make([]*MU, 0, len(us))
+		for _, u := range us {
+			out = append(out, uvalMU(u))
+		}
+		return out
+	})
+	// lq follows the live-query pattern of livesql: inside the public
+	// reactive.Cache, register a dependency (a Resource with a Cleanup) FIRST,
+	// then "query" - which fails while the boom cell is non-zero.
+	v.FieldFunc("lq", func(ctx context.Context, v *View) (int64, error) {
+		if isOracle(ctx) {
+			if b := w.cells["boom"].load().(int64); b != 0 {
+				return 0, fmt.Errorf("live query failed %d", b)
+			}
+			return w.cells["lq"].load().(int64), nil
+		}
+		tag := v.tag
+		val, err := reactive.Cache(ctx, lqKey{tag}, func(ctx context.Context) (interface{}, error) {
+			n := int(atomic.AddInt64(&w.resSeq, 1))
+			r := reactive.NewResource()
+			w.Log.Add(Event{Kind: EvResNew, Tag: tag, N: n, Note: "lq"})
+			r.Cleanup(func() {
+				w.Log.Add(Event{Kind: EvResClean, Tag: tag, N: n})
+			})
+			reactive.AddDependency(ctx, r, nil)
+			x := w.read(ctx, tag, "lq").(int64)
+			if b := w.read(ctx, tag, "boom").(int64); b != 0 {
+				return nil, fmt.Errorf("live query failed %d", b)
+			}
+			return x, nil
+		})
+		if err != nil {
+			return 0, err
+		}
+		return val.(int64), nil
 	})
 	v.FieldFunc("pu", func(ctx context.Context, v *View) *PU {
 		return uvalPU(w.read(ctx, v.tag, "pu").(UVal))
